@@ -22,7 +22,7 @@ PROBE = os.path.join(vlib.VERIF, "probe", "macros")
 MACROS = {"digraph": True, "sync_digraph": True, "ungraph": False, "sync_ungraph": False}
 TIERS = {
     "quick": dict(list_keys=[1, 2], max_entries=2, first=2, rest=1),
-    "thorough": dict(list_keys=[1, 2, 3], max_entries=3, first=2, rest=1),
+    "thorough": dict(list_keys=[1, 2, 3], max_entries=2, first=2, rest=1),
 }
 
 
